@@ -80,6 +80,40 @@ CHECKS["C02"] = {
     "level_note": "equivalence is sampled, not proved; triples outside the generated classes are not covered",
 }
 
+CHECKS["C05"] = {
+    "title": "fixed sizes and exact round trip of keys and signatures",
+    "rule": "Per seed (committed regression seeds first, then seeds derived from VERIF_SEED, then counter seeds): keygen under "
+            "the panic monitor; lengths 1281/897/666 resp. 2305/1793/1280; the in-memory basis (hook) must fit the field widths "
+            "and sk.to_bytes() must equal the reference encoder's header|f|g|F; from_bytes(to_bytes(x)) must equal x by "
+            "PartialEq, by re-encoded bytes and by basis (so the recomputed G is compared); then, only if the round trip was "
+            "equal, 5 messages of varying shape are signed with the DECODED key (seeded honest randomness, logical-step "
+            "progress bound) and each signature must have the right length, survive its own round trip and be accepted by "
+            "verify and by the reference verifier under the ORIGINAL public key. distinct_nontrivial = distinct seeds whose "
+            "key completed the round-trip comparison.",
+    "assumptions": ["reference key encoders in harness/src/refs/spec.rs", "seeds not generated are not covered (rare events below ~1/keys explored are invisible)"],
+    "legs": [{"name": "roundtrip"}],
+    "technique": "round-trip invariant monitor over generated keys (hook: read-only basis accessor) with regression seeds, reference encoder and reference verifier as oracles",
+    "level_text": "Every generated key and signature is pushed through encode/decode and compared at byte, object and basis level; the decoded key is exercised by signing.",
+    "level_note": "quantifier over 2^256 seeds is sampled (about 280 keys quick, about 18000 thorough)",
+}
+
+CHECKS["C06"] = {
+    "title": "decoding is strict and canonical",
+    "rule": "Invariant monitor on every accepted string: from_bytes(b) = Ok(x) => x.to_bytes() == b, plus must-reject oracle from "
+            "reference format decoders (wrong length, wrong header byte, public-key field >= q, reserved secret-key pattern). "
+            "Workload: mutations of real and synthetic encodings of all three types and both variants (256 header bytes, "
+            "truncation/extension, other variant's lengths, bit flips, field edits q-1/q/q+1/16383 and reserved/max/min at "
+            "first/middle/last position of every polynomial, all-zero/one, random bodies); secret keys synthesised with every "
+            "field drawn from its full legal range; each variant's encodings offered to the other variant's decoders and to the "
+            "other types' decoders. distinct_nontrivial = distinct accepted strings + distinct (variant, type, must-reject "
+            "class, mutation class) rejected cells.",
+    "assumptions": ["reference format decoders in harness/src/refs/spec.rs", "signature bodies are judged by verify (C02/C07), not by Signature::from_bytes"],
+    "legs": [{"name": "canonical", "profiles": BOTH}],
+    "technique": "re-encode-and-compare invariant monitor + reference format oracle over structure-aware mutated encodings",
+    "level_text": "Sampled: each accepted string is re-encoded and compared; each listed malformed class is generated many times and must be rejected.",
+    "level_note": "strings outside the mutation families are not covered",
+}
+
 NOT_APPLICABLE = {}
 
 ENGINES = [
